@@ -57,7 +57,12 @@ extern int mpt_value_convert(const MPT_STRUCT(value) *val, MPT_TYPE(type) type, 
 			return MPT_ERROR(BadValue);
 		}
 		if (dest) {
-			memcpy(dest, src, traits->size);
+			/* value without data address is zero/default (see mpt_value_copy) */
+			if (src) {
+				memcpy(dest, src, traits->size);
+			} else {
+				memset(dest, 0, traits->size);
+			}
 		}
 		return 0;
 	}
